@@ -2,6 +2,7 @@ package main
 
 import (
 	"go/ast"
+	"go/types"
 	"strings"
 
 	"golang.org/x/tools/go/packages"
@@ -11,6 +12,7 @@ import (
 // "//go:embed"; "// go:embed x" is an ordinary comment and the variable stays empty.
 // checkGlobLiteralDir (R16.5): only the pattern is a glob; the package directory is matched literally.
 func checkEmbedSyntaxAndGlob(c *Ctx, p *packages.Package) {
+	checkUnadjustedPositions(c, p)
 	c.Rule("R16.4", "a //go:embed directive is recognised only at the very start of the comment text (no white space between // and go:embed)", 1)
 	c.Rule("R16.5", "glob metacharacters in the package directory are matched literally: the directory is quoted (or globbing is relative to it) before the pattern is appended", 1)
 	info := p.TypesInfo
@@ -92,4 +94,54 @@ func init() {
 		Old: "line := strings.TrimPrefix(c.Text, \"//\")", New: "line := strings.TrimSpace(strings.TrimPrefix(c.Text, \"//\"))", Expect: "R16.4"})
 	addMutant(Mutant{Prop: "C16", Name: "glob-unquoted-pkgdir", File: "internal/goembed/goembed.go",
 		Old: "quoteGlob(pkgDir)", New: "pkgDir", Expect: "R16.5"})
+}
+
+// checkUnadjustedPositions (R16.6): the directory in which patterns are resolved is the directory of the real
+// source file.  //line directives must not move it: positions are taken with PositionFor(pos, false).
+func checkUnadjustedPositions(c *Ctx, p *packages.Package) {
+	c.Rule("R16.6", "embed patterns are resolved relative to the real file: file positions are taken unadjusted (PositionFor(pos, false)), never through //line directives", 1)
+	info := p.TypesInfo
+	n := 0
+	for _, fd := range allFuncs(p) {
+		for _, call := range callsIn(fd.Body) {
+			f := calleeOf(info, call)
+			if f == nil || f.Pkg() == nil || f.Pkg().Path() != "go/token" {
+				continue
+			}
+			switch f.Name() {
+			case "Position":
+				if recvNamed(f) == "FileSet" {
+					n++
+					c.Bad("R16.6", "goembed."+declName(fd)+" FileSet.Position", call.Pos(), "FileSet.Position applies //line directives: a generated file mapped back to a template resolves its go:embed patterns in the template's directory")
+				}
+			case "PositionFor":
+				n++
+				adj, ok := constBool(info, call.Args[len(call.Args)-1])
+				c.Check(ok && !adj, "R16.6", "goembed."+declName(fd)+" FileSet.PositionFor", call.Pos(), "adjusted=false", "positions are //line-adjusted: patterns are resolved in the directory named by the directive instead of the package directory")
+			}
+		}
+	}
+	if n == 0 {
+		c.Undecided("R16.6", "goembed position lookups", 0, "no FileSet position lookup found")
+	}
+}
+
+func recvNamed(f *types.Func) string {
+	sig, ok := f.Type().(*types.Signature)
+	if !ok || sig.Recv() == nil {
+		return ""
+	}
+	t := sig.Recv().Type()
+	if p, ok := t.(*types.Pointer); ok {
+		t = p.Elem()
+	}
+	if n, ok := t.(*types.Named); ok {
+		return n.Obj().Name()
+	}
+	return ""
+}
+
+func init() {
+	addMutant(Mutant{Prop: "C16", Name: "line-adjusted-positions", File: "internal/goembed/goembed.go",
+		Old: "return fset.PositionFor(pos, false)", New: "return fset.Position(pos)", Expect: "R16.6"})
 }
